@@ -364,6 +364,7 @@ type c06Cell struct {
 	key    string
 	src    string
 	expect string // accept | reject
+	extra  map[string]string // further files of the program (imported ones)
 }
 
 func hexKey(s string) string {
@@ -508,6 +509,27 @@ func c06Cells(thorough bool) []c06Cell {
 			cells = append(cells, c06Cell{key: k + "/" + ctx.name, src: preludeFor(ctx.open+fixed[k][0]+ctx.shut) + ctx.open + fixed[k][0] + ctx.shut, expect: fixed[k][1]})
 		}
 	}
+	// typed positions whose callee lives in another file: two importers in different directories write the same
+	// import path and mean different files, whose functions of one name take different types
+	{
+		lay := func(textsArg, numbersArg string) map[string]string {
+			return map[string]string{
+				"texts/util.tsh":     "func Width(s string) int {\n\treturn len(s)\n}\n",
+				"numbers/util.tsh":   "func Width(n int) int {\n\treturn n * 2\n}\n",
+				"texts/report.tsh":   "import u \"util.tsh\"\n\nfunc Show() int {\n\treturn u.Width(" + textsArg + ")\n}\n",
+				"numbers/report.tsh": "import u \"util.tsh\"\n\nfunc Show() int {\n\treturn u.Width(" + numbersArg + ")\n}\n",
+			}
+		}
+		for _, order := range [][2]string{{"texts", "numbers"}, {"numbers", "texts"}} {
+			main := "import (\n\ta \"" + order[0] + "/report.tsh\"\n\tb \"" + order[1] + "/report.tsh\"\n)\n\nprint(a.Show(), b.Show())\n"
+			for _, c2 := range []struct{ k, t, n, e string }{
+				{"both-right", `"twenty"`, "20", "accept"}, {"texts-gets-int", "20", "20", "reject"}, {"numbers-gets-string", `"twenty"`, `"twenty"`, "reject"},
+				{"both-wrong", "20", `"twenty"`, "reject"},
+			} {
+				cells = append(cells, c06Cell{key: "fixed/same-import-path-other-file/" + order[0] + "-first/" + c2.k, src: main, expect: c2.e, extra: lay(c2.t, c2.n)})
+			}
+		}
+	}
 	return cells
 }
 
@@ -559,10 +581,10 @@ func checkC06(c *Check) {
 	res := make([]outc, len(cells))
 	parallelDo(len(cells), 16, func(i int) {
 		cell := cells[i]
-		a, b, dir := transpileBoth(cell.src, nil)
+		a, b, dir := transpileBoth(cell.src, cell.extra)
 		va, vb := verdictOf(a), verdictOf(b)
 		res[i] = outc{va, vb}
-		if i%5 == 0 || strings.HasPrefix(cell.key, "fixed/") {
+		if cell.extra == nil && (i%5 == 0 || strings.HasPrefix(cell.key, "fixed/")) {
 			msrc, extra := importedVariant(cell.src)
 			ia, ib, idir := transpileBoth(msrc, extra)
 			c.Eval("imported\x00"+cell.src, true)
@@ -576,6 +598,9 @@ func checkC06(c *Check) {
 		}
 		c.Eval(cell.src, true)
 		files := map[string]string{"main.tsh": cell.src, "expected": cell.expect}
+		for n, x := range cell.extra {
+			files[n] = x
+		}
 		detail := func(r TResult) string {
 			if r.Err != nil {
 				return stripDir(r.Err.Error(), dir)
